@@ -50,6 +50,10 @@ def cells(tier, seed):
             for N in (1, 3):
                 out.append({"ak": ak, "Dx": Dx, "Dy": Dy, "Da": Da, "Dk": Dk, "mode": "bounds",
                             "N": N, "reps": reps, "group": [ak, Dx, Dy, Da, Dk, N], "cost": 6.0})
+        # no noise unit at all (W of shape [0, Dx+1], accepted by the constructor): the conditional
+        # is homoscedastic and every link's value is the exact expected log-density
+        out.append({"ak": ak, "Dx": 1, "Dy": 2, "Da": 2, "Dk": 0, "mode": "bounds", "N": 3,
+                    "reps": reps, "group": [ak, "Dk0"], "cost": 2.0})
         # nearly collinear rows of A: cond(AA') = 1e4, the edge of the input domain
         out.append({"ak": ak, "Dx": 1, "Dy": 2, "Da": 2, "Dk": 1, "mode": "bounds", "N": 1,
                     "A_kappa": 1e4, "reps": reps, "group": [ak, "Acond"], "cost": 6.0})
@@ -220,7 +224,7 @@ def run_cell(cell, rec, seed):
         # pair eps = 1e-1 of the decay criterion); the smooth links are judged down to 1e-3.
         scales = (1.0, 0.3, 0.1, 0.03, 0.01) + (
             (0.003, 0.001, 0.0) if ak in ("het_exp", "het_cosh") else ())
-        if cell.get("far_x"):
+        if cell.get("far_x") or Dk == 0:
             scales = (1.0,)
         if cell.get("A_kappa"):
             # nearly collinear A: the step / rectified-linear bounds divide by the input weight,
@@ -256,7 +260,10 @@ def run_cell(cell, rec, seed):
             gap = tr - lb
             gaps[eps] = gap
             d = dict(inf, bound=lb, truth=tr, gap=gap)
-            if ak == "het_step":
+            if Dk == 0:
+                rec.close("no noise unit: value equals the true expectation", lb, tr,
+                          ns=1.0 + np.abs(tr), detail=d, mech=f"homoscedastic-not-exact:{ak}")
+            elif ak == "het_step":
                 rec.close("step link: value equals the true expectation", lb, tr,
                           ns=np.maximum(1.0, 1e-7 / 1e-8) * np.ones_like(tr), detail=d,
                           mech=f"step-not-exact:{regime}")
